@@ -33,6 +33,12 @@ def twin_pairs(ctx: Ctx) -> List[Tuple[FuncInfo, FuncInfo]]:
             t = cls.methods.get(name + "_async")
             if t is not None:
                 out.append((m, t))
+    # module-level helper pairs (e.g. _intersect / _intersect_async)
+    for mod in ctx.repo.modules.values():
+        for name, f in mod.functions.items():
+            t = mod.functions.get(name + "_async")
+            if t is not None:
+                out.append((f, t))
     return out
 
 
